@@ -25,7 +25,7 @@ func (s *Store) deleteModule(m *ModuleInstance) error {
 	m.prev = nil
 	m.next = nil
 
-	if m.ModuleName != "" {
+	if m.ModuleName != "" && s.nameToModule[m.ModuleName] == m {
 		delete(s.nameToModule, m.ModuleName)
 
 		// Shrink the map if it's allocated more than twice the size of the list
